@@ -980,7 +980,9 @@ class Mutations:
             new_sigma_inv = np.insert(
                 np.insert(new_sigma_inv, to_add, 0, 0), to_add, 0, 1
             )
-            for i in to_add:
+            # NOTE: to_add holds insertion points relative to the array before insertion,
+            # the k-th inserted row/column ends up at to_add[k] + k
+            for i in to_add + np.arange(len(to_add)):
                 new_sigma_inv[i, i] = 1 / individual.lamb
 
         individual.exp_layer = exp_layer
